@@ -16,7 +16,8 @@ type verdict struct {
 	Infra     string // harness could not judge
 	// observations that go beyond the literal statement (error type where the statement fixes none, lenient
 	// denotations of a field/version, ...): evidence only, r.Outcome("recorded:<key>"), never a violation
-	Recorded []string
+	Recorded    []string
+	NotRealised bool // a timing-dependent clause could not be judged because the observed events came in the wrong order
 }
 
 func exitClass(e string) string {
@@ -50,7 +51,7 @@ func judge(c Case, res result) (v verdict) {
 	exit0 := c.Exit == "0"
 	limited := isCtxLimited(c.Ctx)
 	faithful := (c.Timing == tImmediate || c.Timing == tSlow) && (c.Ctx == cBackground || c.Ctx == cFar)
-	descNoEnd := isDesc(c.Timing) && !limited && c.Ctx != cCancelled
+	descNoEnd := isDesc(c.Timing) && !limited && c.Ctx != cCancelled && !isBusyHost(c.Timing)
 	add := func(key, what string) { v.Viols = append(v.Viols, viol{key, what}) }
 	rec := func(key string) { v.Recorded = append(v.Recorded, key) }
 	tuple := fmt.Sprintf("cmd=%s exit=%s stdout=%s stderr=%s timing=%s ctx=%s req=%s", c.Cmd, c.Exit, c.Stdout, c.Stderr, c.Timing, c.Ctx, c.Req)
@@ -198,6 +199,8 @@ func judge(c Case, res result) (v verdict) {
 				rc = "request-error(plugin's own)"
 			}
 		case isErrThenSleep(c.Timing) && limited:
+			rec("not-judged(plugin had not written before the context ended)")
+			v.NotRealised = true
 			wantRec(typedAny(res.ErrClass), "error/untyped-failure:context-"+c.Ctx)
 			rc = "error (case not realised: killed before the plugin had finished printing, even with the delay doubled 6 times)"
 		case !faithful && !descNoEnd:
@@ -208,6 +211,16 @@ func judge(c Case, res result) (v verdict) {
 		case !exit0 && soLabel == soOversize:
 			// the host closes the pipe at the cap, the plugin dies of SIGPIPE before it reaches its stderr output
 			want(typedAny(res.ErrClass), "error/untyped-failure:oversize-stdout", "a typed error")
+		case !exit0 && descNoEnd:
+			// a descendant holds the pipes: how much of the plugin's stderr the host has read when its bounded pipe
+			// wait runs out depends on the scheduling of its readers - evidence only
+			v.Judged = true // refused, as demanded
+			switch se.Label {
+			case seStructured:
+				wantRec(res.ErrClass == "request-error" && res.Code == se.Code, "error/structured-error-lost:"+se.Code+"(descendant-holds-pipes)")
+			default:
+				wantRec(typedAny(res.ErrClass), "error/untyped-failure:descendant-holds-pipes")
+			}
 		case !exit0:
 			switch se.Label {
 			case seStructured:
